@@ -226,7 +226,7 @@ def impl_view(k, c, o):
     if k == "interact":
         E1, dep, st, pc, step1, step0, n = o[0:7]
         secs = [[bool(o[7 + 2 * i]), o[8 + 2 * i]] for i in range(n)]
-        failed = (pc == 4 and step1 == 0.0)
+        failed = (pc == 4)     # post action = physics-failure (either variant of the branch)
         return [E1, dep, st, failed, secs]
     if k == "tcut":
         return list(o[0:3])
